@@ -142,8 +142,26 @@ func checkCycleVisit(c *core.Ctx, l *core.Ledger) {
 				}
 			}
 		})
+		// or: the standard membership test over the whole chain
+		if !ok || !fullRange(f, "$0") {
+			std := false
+			core.Instrs(f, func(in ssa.Instruction) {
+				if r, isR := in.(*ssa.Return); isR && len(r.Results) == 1 {
+					if call, isC := r.Results[0].(*ssa.Call); isC {
+						if o := core.CalleeObj(call); o != nil && o.Pkg() != nil && o.Pkg().Path() == "slices" && o.Name() == "Contains" && len(call.Call.Args) == 2 && core.Sym(call.Call.Args[0]) == "$0" && core.Sym(call.Call.Args[1]) == "$1" {
+							std = true
+						}
+					}
+				}
+			})
+			if std && len(f.Blocks) == 1 {
+				l.Ok("CYCLE-VISIT", "visited", c.Rel(f.Pos()), "slices.Contains(chain, node)")
+				goto doneVisited
+			}
+		}
 		l.Check(ok && fullRange(f, "$0"), "CYCLE-VISIT", "visited", c.Rel(f.Pos()), "true iff an element of the whole chain is the node", "visited() does not answer 'is the node on the chain'")
 	}
+doneVisited:
 	// ForEachTypeReference completeness per TypeSpec implementer
 	p := c.Pkg("compile")
 	tsObj := p.Types.Scope().Lookup("TypeSpec")
@@ -242,4 +260,89 @@ func checkCycleVisit(c *core.Ctx, l *core.Ledger) {
 		l.Check(ok && fullRange(f, "$0"), "CYCLE-VISIT", "ForEach:FieldGroup", c.Rel(f.Pos()), "hands every field's type to the callback", "not every field's type is handed to the callback")
 	}
 	l.Floor("CYCLE-VISIT", 15)
+}
+
+// fieldChaseLoop: `for x := start; x != nil; x = x.f` — the loop variable is
+// replaced on every iteration by a pointer loaded from a field of itself and
+// the loop leaves when it is nil. This terminates when the chain through f is
+// finite, which holds if f is only ever written while its owner is being
+// constructed (a composite literal): a new node can then only point to nodes
+// that already exist, so no cycle can be closed.
+func fieldChaseLoop(c *core.Ctx, f *ssa.Function, body map[*ssa.BasicBlock]bool) (string, bool) {
+	for b := range body {
+		for _, in := range b.Instrs {
+			ph, ok := in.(*ssa.Phi)
+			if !ok {
+				continue
+			}
+			if _, isPtr := ph.Type().Underlying().(*types.Pointer); !isPtr {
+				continue
+			}
+			// one incoming edge from inside the loop: a load of FieldAddr(ph, f)
+			var fld *types.Var
+			for i, e := range ph.Edges {
+				if !body[b.Preds[i]] {
+					continue
+				}
+				ld, isLd := e.(*ssa.UnOp)
+				if !isLd || ld.Op != token.MUL {
+					fld = nil
+					break
+				}
+				fa, isFA := ld.X.(*ssa.FieldAddr)
+				if !isFA || fa.X != ssa.Value(ph) {
+					fld = nil
+					break
+				}
+				fld = core.FieldOf(fa)
+			}
+			if fld == nil {
+				continue
+			}
+			// exit test: ph != nil guards the body
+			exits := false
+			for _, r := range *ph.Referrers() {
+				if bo, isBo := r.(*ssa.BinOp); isBo && (bo.Op == token.NEQ || bo.Op == token.EQL) {
+					if k, isK := bo.Y.(*ssa.Const); isK && k.IsNil() {
+						for _, rr := range *bo.Referrers() {
+							if ifi, isIf := rr.(*ssa.If); isIf && body[ifi.Block()] {
+								for _, s := range ifi.Block().Succs {
+									if !body[s] {
+										exits = true
+									}
+								}
+							}
+						}
+					}
+				}
+			}
+			if !exits {
+				continue
+			}
+			// the field is written only into freshly allocated owners
+			onlyCtor := true
+			for _, g := range c.AllFuncs() {
+				if c.IsTestFile(g.Pos()) {
+					continue
+				}
+				core.Instrs(g, func(i2 ssa.Instruction) {
+					st, isSt := i2.(*ssa.Store)
+					if !isSt {
+						return
+					}
+					fa, isFA := st.Addr.(*ssa.FieldAddr)
+					if !isFA || core.FieldOf(fa) != fld {
+						return
+					}
+					if al, isAl := fa.X.(*ssa.Alloc); !isAl || al.Parent() != g {
+						onlyCtor = false
+					}
+				})
+			}
+			if onlyCtor {
+				return "pointer chase along field " + fld.Name() + ", which is only written while its owner is constructed (chains are finite and acyclic); leaves on nil", true
+			}
+		}
+	}
+	return "", false
 }
